@@ -315,7 +315,7 @@ func randPreset(rng *rand.Rand) []hdrOp {
 
 func TestVerif_C11(t *testing.T) {
 	r := newRun(t, "C11")
-	r.Rule("configurations (C02 product slice, zero value, Reconfigure(nil) after a configuration) x debug x the preflight-predicate boundary: 10 method tokens x Origin in {absent, zero values, [\"\"], one value, two values, `null`, `*`, `https://`} x ACRM likewise (exhaustive 400-cell grid per configuration) " +
+	r.Rule("configurations (C02 product slice, zero value, Reconfigure(nil) after a configuration) x debug x the preflight-predicate boundary: 10 method tokens x Origin in {absent, zero values, [\"\"], one value, two values, values of 267 / 327 / 408 / 4115 bytes, `null`, `*`, `https://`} x ACRM likewise (exhaustive 400-cell grid per configuration) " +
 		"x inner handlers (status none/200/204/404/500/301, bodies, Set/Add/Del programs on Vary/ACAO/ACAC/ACEH/Content-Type/X-Custom/ACAM/ACMA/Set-Cookie before and after WriteHeader) x pre-set headers from an outer middleware; in a third of the cells the handler sends a nested request with differing values through the same middleware between its header operations and WriteHeader (two exchanges in flight at once), in a sixth it calls SetDebug(current mode) / Config() / Reconfigure(Config()) on the middleware that wraps it. " +
 		"evaluation = one exchange compared with a reference run of the same chain without the CORS middleware, plus identity/count spy; non-trivial = every cell (each exercises the predicate or the pass-through contract), distinct by hash of configuration, chain and request")
 	r.Assume("the reference run (same outer chain and handler, CORS middleware removed) defines the handler's own output")
@@ -348,7 +348,9 @@ func TestVerif_C11(t *testing.T) {
 	prod, _ := c02Product()
 	cfgStride := pick(r, 23, 3)
 	// Origin: absent, zero values, empty, one value, two values, and values an implementation might special-case
-	shapes := [][]string{nil, {}, {""}, {"https://example.com"}, {"https://example.com", "https://other.invalid"}, {"null"}, {"*"}, {"https://"}}
+	// and values longer than any serialised origin (lesson of seeded change C11-r: the predicate is about presence, not value)
+	shapes := [][]string{nil, {}, {""}, {"https://example.com"}, {"https://example.com", "https://other.invalid"}, {"null"}, {"*"}, {"https://"},
+		{"https://" + longHost(253) + ":65535"}, {strings.Repeat("s", 64) + "://" + longHost(253) + ".:65535"}, {"https://" + strings.Repeat("a", 400)}, {"https://" + strings.Repeat("a.", 2048) + "example.com"}}
 	acrmShapes := [][]string{nil, {}, {""}, {"PUT"}, {"GET", "PUT"}}
 	nProgs := pick(r, 6, 12)
 	// batches: configurations + 2 passthrough kinds
@@ -448,7 +450,7 @@ func TestVerif_C11(t *testing.T) {
 			}
 		}
 	})
-	r.Exhaustive("per visited configuration and handler program: the full 10 x 8 x 5 grid of method x Origin shape x ACRM presence")
+	r.Exhaustive("per visited configuration and handler program: the full 10 x 12 x 5 grid of method x Origin shape x ACRM presence")
 	r.mu.Lock()
 	r.counters["preflight_cells"], r.counters["non_preflight_cells"] = r.counters["n1"], r.counters["n2"]
 	delete(r.counters, "n1")
